@@ -122,7 +122,7 @@ def r4_offset(facts, rep):
             if any(e[0] == "fail" for e in log):
                 continue
             pv2 = it.read_ref(o.store, Ref(0, 0))
-            buf = pv2.field(names.index("buf")) if isinstance(pv2, Agg) else None
+            buf = c12.at_path(pv2, names["buf"]) if isinstance(pv2, Agg) else None
             delivered = [e for e in log if e[0] == "token"]
             res.append((o, delivered, buf, dict((repr(p_), b_) for p_, b_ in dom.pc(o.store))))
         return b, res
